@@ -295,6 +295,9 @@ register(PropertySpec(
              "From(...): the k-th field value is bound to __init__ parameter k+1 (self = 0), the From slot not counted"),
         Rule("CLS-ARGS-SIGNATURE", predform.rule_cls_args_signature, 1,
              "the name list positional values are bound against is inspect.signature(cls.__init__).parameters on every path"),
+        Rule("DECL-FILTER", predform.rule_decl_filter_paths, 1,
+             "abstract-state-aware path query: every path of extract_selected_variable_and_expression with a supplied "
+             "(non-expression) domain passes an isinstance(…, runtime class) test before the Variable is built"),
         Rule("DECL-FILTER", predform.rule_decl_filter, 4,
              "the supplied domain is wrapped in a filter isinstance(v, <runtime class parameter>), the Variable is built "
              "for that class over the filtered domain, and the runtime class (not the closure's decorated class) is "
